@@ -569,6 +569,202 @@ def body_C02(ctx):
                                 "continuation) against hand-nested plain closures")
 
 
+DSL_WORDS = set("let mut map then and_then futures_crate_path custom_joiner transpose_results lazy_branches n true false".split())
+
+
+# identifiers the case generator uses as operand markers (never written by the scaffold)
+MARKER_RE = re.compile(r"^(?:[ifcezyb]\d+(?:_\d+)?|init|first|last|inner|after|insp|fa|fb|ia|ib|da|db|mid|next|second|blk|ff|hh|"
+                       r"cap\d+|conv|mk|flag|foo)$")
+
+
+def marker_oracle(ctx, reals, pid):
+    """C10 (token level): every identifier / literal that occurs exactly once in the macro input (and is not a DSL
+    keyword) must occur exactly once in the real output: nothing dropped, nothing duplicated."""
+    n_checked = 0
+    # identifiers the scaffold itself writes, per configuration: taken from the real expansion of marker-only programs
+    vocab = {}
+    probes = ["qq0", "qq0, qq1 ~|> qq2 ~=> qq3, qq4 ~?? qq5", "qq0 ~-> qq1, qq2, map => qq3", "qq0 ~|> qq1, qq2, then => qq3",
+              "custom_joiner(qq9) qq0, qq1 ~|> qq2"]
+    pr = k1.run_real([("v%d_%s" % (i, k), k, s, "vocab") for k in G.KINDS for i, s in enumerate(probes)])
+    for x in pr:
+        if x.gen == "ok":
+            vocab.setdefault(x.kind, set()).update(w for w in x.out.split(" ") if w[:2] in ("i:", "l:") and not w.startswith("i:qq"))
+    for r in reals:
+        if r.parse != "ok" or r.gen != "ok":
+            continue
+        inw = collections.Counter(w for w in r.in_toks.split(" ") if w[:2] == "i:")
+        outw = collections.Counter(w for w in r.out.split(" ") if w[:2] == "i:")
+        # the bracket content of `=>[…]` is documented as ignored
+        ignored = set(re.findall(r"[il]:\S+", " ".join(re.findall(r"p:=j p:>j? \[ ([^\]]*) \]", r.in_toks))))
+        ignored |= set("i:" + m for m in re.findall(r"pat :: [^;]*? :: i:(\S+)", r.structure))   # `let` names are bound and used
+        ignored |= set(re.findall(r"i:\S+", r.structure.split(" ;; ")[0]))   # option arguments: once per use site / step
+        for w, c in inw.items():
+            if c != 1 or w in ignored or not MARKER_RE.match(w[2:]) or w in vocab.get(r.kind, ()):
+                continue
+            n_checked += 1
+            if outw.get(w, 0) != 1:
+                ctx.out.violation({"macro_kind": r.kind, "source": r.src, "token": w, "occurrences_in_output": outw.get(w, 0),
+                                   "what": "a user token that occurs once in the input occurs %d times in the expansion" % outw.get(w, 0)},
+                                  found_input=True, signature="marker-" + ("dropped" if outw.get(w, 0) == 0 else "duplicated"))
+                break
+    ctx.out.coverage["unique_markers_checked"] = ctx.out.coverage.get("unique_markers_checked", 0) + n_checked
+
+
+def body_C10(ctx):
+    items = [(k, s, "profiles") for s, _ in G.fam_profiles(4, 3)[:: (5 if ctx.quick() else 1)] for k in G.KINDS]
+    items += [(ctx.rng.pick(G.KINDS), s, "operators") for s in G.fam_operators()]
+    items += [(ctx.rng.pick(G.KINDS), s, "wrappers") for s in G.fam_wrappers()]
+    items += [(ctx.rng.pick(G.KINDS), s, "handlers") for s in G.fam_handlers()]
+    items += random_items(ctx, 400 if ctx.quick() else 6000, mutated=False)
+    reals, _ = ctx.k1(mk_cases(items))
+    marker_oracle(ctx, reals, "C10")
+    n = 150 if ctx.quick() else 1500
+    progs = scaffold_batch(ctx, SYNC_KINDS, n, block_rate=(1, 3), handler_rate=(1, 2), fail_rate=(1, 8), max_depth=4)
+    run_k2(ctx, progs)
+    ctx.out.coverage["rule"] = ("K1 on programs whose operands are unique markers, with the oracle: every user token occurring once in the "
+                                "input occurs exactly once in the real expansion (not dropped, not duplicated); K2: the executed event "
+                                "list (every callback, capture, handler definition and call) equals the reference semantics' exactly — "
+                                "each reached user expression exactly once")
+
+
+def body_C09(ctx):
+    akinds = [k for k in G.KINDS if k[1] == "1"]
+    items = [(k, s, "profiles") for s, _ in G.fam_profiles(3, 3) for k in akinds]
+    items += [(ctx.rng.pick(akinds), s, "operators") for s in G.fam_operators()]
+    items += [(k, s, "random") for (k0, s, f) in random_items(ctx, 300 if ctx.quick() else 4000, mutated=False) for k in [ctx.rng.pick(akinds)]]
+    reals, _ = ctx.k1(mk_cases(items))
+    for r in reals:
+        if r.parse == "ok" and r.gen == "ok":
+            w = r.out.split(" ")
+            ok = w[:8] == ["i:Box", "p::j", "p::", "i:pin", "(", "i:async", "i:move", "{"] and w[-2:] == ["}", ")"]
+            depth = 0
+            # the first top-level group must close only at the very end: everything is inside Box::pin( async move { .. } )
+            for i, x in enumerate(w[4:], 4):
+                if x in ("(", "{", "[", "N("):
+                    depth += 1
+                elif x in (")", "}", "]", ")N"):
+                    depth -= 1
+                    if depth == 0 and i != len(w) - 1:
+                        ok = False
+                        break
+            forbidden = [x for x in ("i:Waker", "i:Context", "i:block_on", "i:channel", "i:poll", "i:Poll") if x in w and x not in r.in_toks.split(" ")]
+            if not ok or forbidden:
+                ctx.out.violation({"macro_kind": r.kind, "source": r.src, "what": "async expansion is not a single Box::pin(async move {…}) "
+                                   "containing everything" if not ok else "executor-level construct in the expansion: %r" % forbidden},
+                                  found_input=True, signature="async-shape")
+    import k2async
+    k2async.body(ctx)
+    ctx.out.coverage["rule"] = ("K1 on the four async configurations (every profile ≤3×3, every operator, random programs) with a shape oracle "
+                                "on the real output (single Box::pin(async move{…}), no waker/context/executor constructs); K2-async: "
+                                "instrumented futures with manually opened gates on a deterministic executor with a counting root waker: "
+                                "nothing runs before the first poll, ready siblings progress past pending ones, every opening wakes the "
+                                "root, completion under every opening order / batches / spurious polls")
+
+
+def body_C16(ctx):
+    items = []
+    for k in (["a1t1s0", "a0t1s1", "a1t0s1"] if ctx.quick() else G.KINDS):
+        items += [(k, s, "options") for s in G.fam_options(k)]
+    reals, _ = ctx.k1(mk_cases(items))
+    # implementation-side oracle: any subset in any order parses to exactly that assignment; any duplicate is rejected
+    names = {"futures_crate_path": "fcp", "custom_joiner": "joiner", "transpose_results": "transpose", "lazy_branches": "lazy"}
+    for r in reals:
+        if r.family != "options":
+            continue
+        prefix = r.src.split(" a ")[0] if " a " in r.src else r.src.split(" a,")[0]
+        opts = re.findall(r"(futures_crate_path|custom_joiner|transpose_results|lazy_branches)\(", prefix)
+        dup = len(set(opts)) != len(opts)
+        if dup:
+            if r.parse == "ok":
+                ctx.out.violation({"macro_kind": r.kind, "source": r.src, "what": "a duplicated option was accepted"}, True, "dup-option")
+            continue
+        if r.parse != "ok":
+            ctx.out.violation({"macro_kind": r.kind, "source": r.src, "real_parse": r.parse,
+                               "what": "a valid option list (subset %r in this order) was rejected" % opts}, True, "option-order")
+            continue
+        got = set(re.findall(r",, (fcp|joiner|transpose|lazy) ::", r.structure.split(" ;; ")[0]))
+        if got != set(names[o] for o in opts):
+            ctx.out.violation({"macro_kind": r.kind, "source": r.src, "parsed_options": sorted(got),
+                               "what": "parsed option assignment differs from the written subset"}, True, "option-assignment")
+    items2 = [(k, "custom_joiner(jn!) lazy_branches(%s) %s" % (lz, s), "joiner") for s, _ in G.fam_profiles(3, 3)[::2]
+              for k in G.KINDS for lz in ("true", "false")]
+    items2 += [(k, "transpose_results(false) custom_joiner(tj) %s" % s, "transpose") for s, _ in G.fam_profiles(3, 3)[::2]
+               for k in ("a0t1s0", "a1t1s0", "a0t1s1", "a1t1s1")]
+    items2 += [(k, "futures_crate_path(my::fut) %s" % s, "fcp") for s, _ in G.fam_profiles(3, 2) for k in ("a1t0s0", "a1t1s0", "a1t0s1", "a1t1s1")]
+    reals2, _ = ctx.k1(mk_cases(items2, start=100000))
+    for r in reals2:
+        if r.parse == "ok" and r.gen == "ok" and r.family == "fcp":
+            if "i:futures" in r.out.split(" "):
+                ctx.out.violation({"macro_kind": r.kind, "source": r.src,
+                                   "what": "a futures item does not come from the configured futures_crate_path"}, True, "fcp")
+        if r.parse == "ok" and r.gen == "ok" and r.family == "joiner":
+            # one joiner application per step with >1 active branches
+            depths = [len(b.split(" ~")) for b in r.src.split(") ", 2)[-1].split(", ")]
+            expect = sum(1 for k in range(max(depths)) if sum(1 for d in depths if d > k) > 1)
+            got = len(re.findall(r"i:jn p:! \(", r.out))
+            if got != expect:
+                ctx.out.violation({"macro_kind": r.kind, "source": r.src, "joiner_applications": got, "expected": expect,
+                                   "what": "the custom joiner is not applied exactly once per step with more than one active branch"},
+                                  True, "joiner-count")
+    import k2
+    k2.run_joiner_programs(ctx)
+    ctx.out.coverage["rule"] = ("every subset and permutation of the four options, one duplicate at every position (implementation-side oracle "
+                                "on the real parser: accepted iff no duplicate, parsed assignment = written subset); custom joiner × laziness × "
+                                "all 8 configurations × depth profiles with a per-step joiner-application count oracle on the real output; "
+                                "transpose_results(false) and futures_crate_path families against the model; K2: logging joiner macro in compiled programs")
+
+
+def body_C17(ctx):
+    items = [(k, s, "large") for s in G.fam_large() for k in G.KINDS]
+    items += [(k, s, "profiles") for s, _ in G.fam_profiles(4, 3)[:: (7 if ctx.quick() else 1)] for k in G.KINDS]
+    ctx.k1(mk_cases(items))
+    # names: the model's rendering (from the regenerated format table) vs the running name constructors
+    path = os.path.join(runner.BUILD, "harness_tables.txt")
+    rows = [l.rstrip("\n").split("\t") for l in open(path) if l.startswith("NAME")]
+    reqs = []
+    for r in rows:
+        reqs.append("NAME\t" + r[1] if r[0] == "NAME" else ("NAMEEW\t%s\t%s\t%s" % (r[1], r[2], r[3]) if r[0] == "NAMEEW" else "NAMEFIXED"))
+    outs = k1.run_driver(reqs)
+    for r, o in zip(rows, outs):
+        ctx.evals += 1
+        if o.split("\t") != r:
+            ctx.broken.append(("name table: model rendering vs construct_*_name of the running code", {"real": r, "model": o}))
+            break
+    import k2
+    k2.run_nesting_programs(ctx)
+    ctx.out.coverage["rule"] = ("K1 on 12/24-branch and 24-action programs (two-digit indices in every name position) under all 8 configurations; "
+                                "name constructors of the running code vs the model's rendering on indices up to 1234 incl. the historical "
+                                "(1,11,0)/(11,1,0) pair; K2: macros nested inside operands, block captures and handlers to depth 3, sync kinds")
+
+
+def body_C19(ctx):
+    items = [(k, s, "profiles") for s, _ in G.fam_profiles(3, 3) for k in ("a0t0s0", "a0t1s0")]
+    items += [(ctx.rng.pick(["a0t0s0", "a0t1s0"]), s, f) for (k, s, f) in random_items(ctx, 400 if ctx.quick() else 5000, mutated=False)]
+    reals, _ = ctx.k1(mk_cases(items))
+    bad_words = ["i:Box", "i:clone", "i:Clone", "i:Send", "i:Sync", "i:static", "i:format", "i:spawn", "i:Arc", "i:Rc", "i:Vec", "i:String",
+                 "i:to_owned", "i:to_string", "i:async", "i:thread"]
+    for r in reals:
+        if r.parse == "ok" and r.gen == "ok":
+            inw = set(r.in_toks.split(" "))
+            hit = [w for w in bad_words if w in r.out.split(" ") and w not in inw]
+            if hit:
+                ctx.out.violation({"macro_kind": r.kind, "source": r.src, "tokens": hit,
+                                   "what": "the sequential expansion contains allocation / Clone / Send / 'static / spawn constructs of its own"},
+                                  True, "hidden-cost")
+    akinds = [(k, s, "async-nonspawn") for s, _ in G.fam_profiles(2, 2) for k in ("a1t0s0", "a1t1s0")]
+    reals2, _ = ctx.k1(mk_cases(akinds, start=200000))
+    for r in reals2:
+        if r.parse == "ok" and r.gen == "ok" and any(w in r.out.split(" ") for w in ("i:Send", "i:static", "i:spawn")):
+            ctx.out.violation({"macro_kind": r.kind, "source": r.src, "what": "a non-spawning async macro requires Send/'static or spawns"},
+                              True, "async-bounds")
+    import k2
+    k2.run_cost_programs(ctx)
+    ctx.out.coverage["rule"] = ("K1 on sequential configurations with a token oracle on the real output (no Box/clone/Send/'static/format!/"
+                                "spawn/collection identifiers other than the user's own); non-spawning async: no Send/'static/spawn; K2: "
+                                "move-only values, Rc (not Send), shared and mutable borrows of the caller's stack through the non-spawning "
+                                "macros must compile and run; allocation counter around sequential evaluations must stay 0")
+
+
 def table_probes(ctx):
     """Model of GroupDeterminer::check_input (over the extracted table) vs the real check_input on every probe."""
     path = os.path.join(runner.BUILD, "harness_tables.txt")
@@ -593,11 +789,16 @@ PROPS = {
     "C04": ("JoinModel.Props.C04", body_C04),
     "C06": ("JoinModel.Props.C06", body_C06),
     "C08": ("JoinModel.Props.C08", body_C08),
+    "C09": ("JoinModel.Props.C09", body_C09),
+    "C10": ("JoinModel.Props.C10", body_C10),
     "C11": ("JoinModel.Props.C11", body_C11),
+    "C16": ("JoinModel.Props.C16", body_C16),
+    "C17": ("JoinModel.Props.C17", body_C17),
+    "C19": ("JoinModel.Props.C19", body_C19),
     "C12": ("JoinModel.Props.C12", body_C12),
     "C13": ("JoinModel.Props.C13", body_C13),
     "C18": ("JoinModel.Props.C18", body_C18),
-    "C15": ("JoinModel.Props.C20", body_C15),
+    "C15": ("JoinModel.Props.C15", body_C15),
     "C05": ("JoinModel.Props.C05", body_C05),
     "C07": ("JoinModel.Props.C07", body_C07),
     "C20": ("JoinModel.Props.C20", body_C20),
